@@ -372,3 +372,79 @@ def c14_mgf(tier, rng):
                 "obligation": "C14.match_genomic_features", "inputs": {"seed": base + k}, "observed": p[:3],
                 "required": "contract of match_genomic_features", "replay_call": "contracts.c_correction:replay_mgf"}]}
     return {"cases": n, "bound": "%d random cases" % n, "violations": [], "samples": [{"seed": base}]}
+
+
+# ---- the residual of C14 (region / intron consistency over real event combinations): bounded through the real assigner ---------------
+def _e2e_case(seed):
+    import random
+    from contracts import pipeline_harness as H
+    rng = random.Random(seed)
+    strategy = rng.choice(["none", "default_pacbio", "conservative_ont", "default_ont", "all", "assembly"])
+    params = H.make_params(strategy)
+    isoforms = H.make_gene(rng)
+    gi = H.gene_info_of(isoforms, params.delta)
+    tid, strand, exons = rng.choice(isoforms)
+    kind = rng.choice(H.READ_KINDS)
+    read = H.derive_read(rng, exons, kind, params.delta)
+    if read is None:
+        return None, []
+    ra, info = H.assign(gi, params, read)
+    corrected = H.correct(gi, params, ra, info)
+    problems = []
+    if not corrected:
+        problems.append("no corrected exons")
+    else:
+        if any(a > b or a < 1 for a, b in corrected):
+            problems.append("block with end before start: %s" % corrected)
+        if any(corrected[i][1] >= corrected[i + 1][0] for i in range(len(corrected) - 1)):
+            problems.append("blocks overlap / not ascending: %s" % corrected)
+        if strategy == "none" and corrected != read:
+            problems.append("strategy none changed the alignment: %s -> %s" % (read, corrected))
+        if not problems:
+            annotated = set()
+            for _, _, ex in isoforms:
+                for i in range(len(ex) - 1):
+                    annotated.add(ex[i][1] + 1); annotated.add(ex[i + 1][0] - 1)
+            own = set()
+            for i in range(len(read) - 1):
+                own.add(read[i][1] + 1); own.add(read[i + 1][0] - 1)
+            for i in range(len(corrected) - 1):
+                for site in (corrected[i][1] + 1, corrected[i + 1][0] - 1):
+                    if site not in own and site not in annotated:
+                        problems.append("splice site %d is neither the read's nor annotated" % site)
+    desc = {"strategy": strategy, "kind": kind, "isoform": tid, "read": read,
+            "events": [e.event_type.name for m in ra.isoform_matches[:1] for e in m.match_subclassifications]}
+    return desc, problems
+
+
+def replay_e2e(d):
+    desc, p = _e2e_case(d["inputs"]["seed"])
+    return (not p), "seed %s %s: %s" % (d["inputs"]["seed"], desc, p or "valid")
+
+
+@bounded("C14.corrected_end_to_end", ["C14"], note="reads derived from annotated isoforms by 11 kinds of perturbation (truncation, jitter, "
+         "terminal exons misplaced into the neighbouring intron on either or both sides, skipped exon, fake terminal micro-exon, retention, "
+         "intron shift, novel exon) go through the real AlignmentInfo -> profiles -> LongReadAssigner -> ExonCorrector under all six "
+         "strategies: corrected blocks must be positive, ascending, non-overlapping; strategy none must leave the alignment unchanged; "
+         "every corrected splice site is the read's own or annotated. This is the bounded stand-in for the assumed contract of "
+         "correct_misalignments")
+def c14_e2e(tier, rng):
+    n = 1500 if tier == "quick" else 60000
+    base = rng.randrange(10 ** 9)
+    done = 0
+    kinds = {}
+    for k in range(n):
+        try:
+            desc, p = _e2e_case(base + k)
+        except Exception as e:
+            desc, p = {"seed": base + k}, ["exception %s: %s" % (type(e).__name__, e)]
+        if desc is None:
+            continue
+        done += 1
+        kinds[desc.get("kind")] = kinds.get(desc.get("kind"), 0) + 1
+        if p:
+            return {"cases": done, "bound": "%d derived reads" % n, "violations": [{
+                "obligation": "C14.corrected_end_to_end", "inputs": {"seed": base + k}, "observed": [str(desc)] + p[:3],
+                "required": "valid corrected alignment", "replay_call": "contracts.c_correction:replay_e2e"}]}
+    return {"cases": done, "bound": "%d derived reads x 6 strategies (sampled)" % n, "violations": [], "nontrivial": len(kinds),
+            "samples": [{"seed": base, "kinds": kinds}]}
